@@ -269,7 +269,7 @@ def model_check_cache(ev, vd, tier, work):
     else:
         runs = [
             ("core K=3 D=2 NG=6", dict(), "CfgPlain", 1800),
-            ("core K=4 D=2 NG=6", dict(K=4), "CfgPlain", 2400),
+            ("core K=4 D=2 NG=5", dict(K=4, NG=5), "CfgPlain", 2400),      # NG=6 at K=4 does not finish in 40 min on a loaded machine (measured)
             ("blksize {1,2} K=3 D=2 NG=4", dict(NG=4, BlkSizes="{1,2}", NegSizes="{1,3}", ByteLens="{1,2}"), "CfgPlain", 900),
             ("device write failures, with and without handler, K=3 D=2 NG=4", dict(NG=4, MaxW=2, MaxFaults=1, ZeroFail="TRUE"), "CfgFault", 2400),
             ("write-through + failures K=3 D=2 NG=4", dict(NG=4, MaxW=2, MaxFaults=1), "CfgWt", 1800),
